@@ -152,7 +152,7 @@ def run_case(case: dict[str, Any]) -> dict[str, Any]:
         if case.get("answer_disconnect"):
             cfg.handlers["BluetoothDeviceRequest"] = lambda c, m: m.request_type == 1 and c.send("BluetoothDeviceConnectionResponse", address=m.address, connected=False)
         dev = sim.device(cfg)
-        cli = sim.client(keepalive=1e5)
+        cli = sim.client(keepalive=1e5, debug=case.get("debug"))     # (None: the library's debug logging rotates; True / False: as the case says)
         c0 = sim.call("connect", lambda: cli.connect(login=False))
         sim.run(until=lambda: c0.done, max_time=sim.clock + 50)
         if c0.outcome != "ok":
@@ -531,6 +531,11 @@ def shard(ctx: Ctx) -> None:
             if ctx.mine(idx):
                 base = {"op": name, "addr": A, "handle": H1}
                 one(ctx, {"ops": [base], "replies": [["T_fa", 0]], "cancel": {"0": at}}, "cancel-then-matching-traffic")
+        # nothing answers at all (timeout path), with the library's debug logging off and on
+        for dbg in (False, True):
+            idx += 1
+            if ctx.mine(idx):
+                one(ctx, {"ops": [{"op": name, "addr": A, "handle": H1}], "replies": [], "answer_disconnect": dbg, "debug": dbg}, "nothing-answers")
         # the deciding answer followed IN THE SAME CHUNK by more traffic the operation's filter accepts: a duplicate, a GATT error, a
         # connection change for its address (peripheral answers and drops at once) -- the first one decides, the rest has no effect
         for second in (["T", 0], ["err", 0], ["conn", A, 0], ["conn", A, 1], ["T_fa", 0]):
